@@ -12,7 +12,9 @@ A case (everything needed to rebuild the page and the expectation):
                          "flate": bool, "begincmap": bool},
    "fontfile": None | {"style": "array"|"std", "entries": [[code, name], ...], "eol": "\n"|"\r"|"\r\n",
                         "noise": bool, "info_first": bool},
-   "widths": None | {"first": int, "list": [num, ...], "missing": num|None, "indirect": "no"|"array"|"items"},
+   "widths": None | {"first": int, "list": [num, ...], "missing": num|None, "indirect": "no"|"array"|"items"|"shared"},
+                                          # shared: every value that occurs twice or more is ONE indirect object,
+                                          # referenced from each of its positions in the array
    "matrix": None | [a, b, c, d, e, f],   # Type3
    "descriptor": bool,                    # Type3 only: with a /FontDescriptor
    "size": num, "layout": "single"|"row"|"tj", "order": "asc"|"desc"|"perm:<n>", "direct": bool,
@@ -220,7 +222,10 @@ def gen_widths(rng: random.Random, full: bool = False) -> Dict[str, Any]:
         else:
             lst.append(rng.randrange(0, 4000) / 4.0 if rng.random() < 0.5 else rng.randrange(0, 2001))
     missing = rng.choice([None, None, 0, 250, 500, 1000, 333.5, rng.randrange(1, 2000)])
-    return {"first": first, "list": lst, "missing": missing, "indirect": rng.choice(["no", "no", "array", "items"])}
+    indirect = rng.choice(["no", "no", "array", "items", "shared"])
+    if indirect == "shared" and ln >= 2:
+        lst[rng.randrange(1, ln)] = lst[0]  # at least one object is referenced twice
+    return {"first": first, "list": lst, "missing": missing, "indirect": indirect}
 
 
 def gen_fontfile(rng: random.Random, style: str = "array", traps: bool = False) -> Dict[str, Any]:
@@ -238,7 +243,8 @@ T3_SCALES = [0.001, 0.002, 0.0005, 0.01, 0.00048828125, 0.0125, 0.000244140625, 
 
 
 def gen_case(rng: random.Random, family: str) -> Dict[str, Any]:
-    """family: base | diff | overlap | tounicode | fontfile | ff_enc | ff_std | std14 | std14_tu | t3 | t3_shear | widths | traps"""
+    """family: base | diff | overlap | tounicode | fontfile | ff_enc | ff_std | ff_traps | std14 | std14_tu | t3 | t3_shear |
+    t3_missing | widths | traps"""
     c: Dict[str, Any] = {"tag": family, "std14": False, "tounicode": None, "fontfile": None, "widths": None,
                          "matrix": None, "descriptor": True}
     c["size"] = rng.choice([1, 8, 10, 12, 7.5, 0.5, 24])
@@ -273,17 +279,25 @@ def gen_case(rng: random.Random, family: str) -> Dict[str, Any]:
         if family == "std14_tu":
             c["tounicode"] = gen_tounicode(rng)
         return c
-    if family in ("t3", "t3_shear"):
+    if family in ("t3", "t3_shear", "t3_missing"):
         c["subtype"] = "Type3"
         c["enc"] = enc_any(False)
-        a = rng.choice(T3_SCALES)
+        a = rng.choice(T3_SCALES if family != "t3_missing" else T3_SCALES[1:])
         d = a if rng.random() < 0.6 else rng.choice(T3_SCALES)
         c["matrix"] = [a, 0, 0, d, 0, 0]
         if family == "t3_shear":
             c["matrix"][2] = rng.choice([a / 4, a / 2, -a / 4])
         w = gen_widths(rng)
         c["descriptor"] = rng.random() < 0.4
-        if not (c["descriptor"] and len(w["list"]) == 256):
+        if family == "t3_missing":
+            # a FontDescriptor with a non-zero MissingWidth and codes outside FirstChar..LastChar.  Table 112 says the
+            # width of such a code is 0, Table 122 says it is MissingWidth (glyph space, 9.6.5): the oracle accepts
+            # both readings and nothing else
+            while len(w["list"]) == 256:
+                w = gen_widths(rng)
+            w["missing"] = rng.choice([250, 500, 1000, 333.5, rng.randrange(1, 2000)])
+            c["descriptor"] = True
+        elif not (c["descriptor"] and len(w["list"]) == 256):
             w["missing"] = None  # Table 112: outside FirstChar..LastChar the width is 0; MissingWidth would make it debatable
         if not c["descriptor"]:
             w["missing"] = None
@@ -428,6 +442,9 @@ def expected(case: Dict[str, Any]) -> List[Dict[str, Any]]:
                 # 9.2.4 / 9.6.5: the glyph-space displacement (w, 0) goes through FontMatrix: x component a*w
                 adv = glyphw * case["matrix"][0] * size
                 wsrc = ("type3_shear_" if case["matrix"][2] else "type3_") + wsrc
+                if wsrc.endswith("_missing") and glyphw != 0 and len(w["list"]) < 256:
+                    adv = (0.0, adv)  # Table 112 (0) or Table 122 (MissingWidth, in glyph space): either reading
+                    wsrc = "type3_missing_either"
             else:
                 adv = glyphw / 1000.0 * size
         res.append({"text": text, "tsrc": tsrc, "adv": adv, "wsrc": wsrc})
@@ -573,6 +590,14 @@ def font_object(case: Dict[str, Any], doc: pdfw.Doc) -> Dict[str, Any]:
     wl: Any = list(w["list"])
     if w["indirect"] == "items":
         wl = [doc.add(x) if i % 5 == 0 else x for i, x in enumerate(wl)]
+    elif w["indirect"] == "shared":
+        pool: Dict[str, Any] = {}
+        reps = [repr(x) for x in wl]
+        for i, x in enumerate(list(wl)):
+            if reps.count(reps[i]) >= 2:
+                if reps[i] not in pool:
+                    pool[reps[i]] = doc.add(x)
+                wl[i] = pool[reps[i]]
     elif w["indirect"] == "array":
         wl = doc.add(wl)
     d["FirstChar"] = w["first"]
